@@ -80,6 +80,13 @@ func runC09(c *core.Ctx, b core.Batch) {
 			c.Count("types_without_unknown_storage")
 			continue
 		}
+		if gen.InvolvesMessageSet(mt.Descriptor()) {
+			// a MessageSet keeps unresolved items as (type id, payload), discards any
+			// other field it does not know and re-emits items in canonical form:
+			// its own format, decided by C47, not the verbatim preservation of C09
+			c.Count("types_with_messageset_skipped")
+			continue
+		}
 		name := string(mt.Descriptor().FullName())
 		var subMD protoreflect.MessageDescriptor
 		for k := 0; k < per; k++ {
